@@ -220,7 +220,7 @@ prop("C11", "exploration",
      "over amount || final kernel excess || sender address. After an accepted finalization the exported proof must fail verification before the kernel is "
      "mined, verify after mining, and fail for 11 alterations (amount +-1, excess bit / another on-chain kernel, either address, swapped addresses or "
      "signatures, bit-flipped signatures, sender signature by another key). distinct = (flow, alteration, outcome); non-trivial = all",
-     [{"name": "c11", "cmd": "c11", "shards": {"quick": 12, "thorough": 16}, "crash_is_violation": True, "timeout": {"quick": 900, "thorough": 3000}}],
+     [{"name": "c11", "cmd": "c11", "shards": {"quick": 12, "thorough": 16}, "crash_is_violation": True, "args": {"quick": {"scenarios": 6}}, "timeout": {"quick": 900, "thorough": 3000}}],
      {"quick": 500, "thorough": 4000},
      ["'kernel not on chain' is tested before mining and, once per shard as its last action, after the block holding the kernel was replaced by a longer fork without it",
       "once per shard a proof-carrying send (standard or late-locked) is initiated from a named account (src_acct_name) while another account is active; a refusal is accepted, a success must export a verifying proof"],
